@@ -1,7 +1,7 @@
 (* C05 — correspondence helpers: decidable equality on val/json, oracles instantiated from recorded
    tables, boolean case checkers evaluated by vm_compute on cases recorded from the implementation. *)
 From Coq Require Import ZArith List Bool Lia ZifyBool.
-From S2T Require Import Lib.PyStr C05.Model.
+From S2T Require Import Lib.PyStr C05.Model C05.Roundtrip.
 Import ListNotations.
 Open Scope N_scope.
 
@@ -163,3 +163,11 @@ Definition hyps (R : registry) (ws : list N) (v : val) : bool :=
 
 (* xlsx cell normalisation: openpyxl value kind, implementation's _get_cell_value result *)
 Definition cell_case (c : cell * val) : bool := val_eqb (get_cell_value (fst c)) (snd c).
+
+(* hypotheses of C05_roundtrip_same_object *)
+Definition hyps_strict (R : registry) (ws : list N) (v : val) : bool :=
+  hyps R ws v && keys_are_strings v && dict_keys_distinct v.
+
+(* code: 0 = outside C05_roundtrip_partial, 1 = its hypotheses hold, 2 = those of C05_roundtrip_same_object too *)
+Definition hyp_level (R : registry) (ws : list N) (v : val) : nat :=
+  if hyps_strict R ws v then 2%nat else if hyps R ws v then 1%nat else 0%nat.
